@@ -948,11 +948,14 @@ class Engine:
         uni = self.universe(wc, hold, spin)
         # (d, e, n) triples
         sym = None
+        mixed = None
         for x in (E, N):
             if is_expr(x):
                 if sym is not None and sym != x[1]:
-                    raise AnalysisBroken('symex: CAS at %s mixes two different loads of the word' % inst.where())
+                    mixed = (E[1], N[1])
                 sym = x[1]
+        if mixed is not None:
+            return self.exec_cmpxchg_mixed(st, f, inst, wc, instance, hold, spin, uni, E, N, fail)
         if E is TOP or N is TOP or isinstance(E, Ptr) or isinstance(N, Ptr):
             raise AnalysisBroken('symex: CAS on %s at %s (%s) has an operand the engine cannot evaluate (expected=%r new=%r)'
                                  % (wc.name, inst.where(), st.callstring(), E, N))
@@ -991,6 +994,39 @@ class Engine:
                 f2.regs[inst.id] = ('agg', (E, 1))
                 f2.idx += 1
                 outs.append(s2)
+        return outs
+
+    def exec_cmpxchg_mixed(self, st, f, inst, wc, instance, hold, spin, uni, E, N, fail):
+        """the expected value comes from one load of the word and the new value from another (earlier) one: the CAS succeeds when the word
+        equals the fresh value but installs a value that ignores every change made between the two loads.  All combinations of the two loads'
+        possible values are transitions (bounded sample of a very large product); the record is marked so that rules can name the defect."""
+        se, sn = E[1], N[1]
+        self.check_domain(wc, E[2], inst); self.check_domain(wc, N[2], inst)
+        De = sorted(d for d in st.S.get(se, ()) if eval_tree(E[2], d) in uni)
+        Dn = sorted(st.S.get(sn, ()))
+        if len(De) * len(Dn) > 16384:
+            De = De[::max(1, len(De) // 128)]
+            Dn = Dn[::max(1, len(Dn) // 128)]
+        triples = [(d1, eval_tree(E[2], d1), eval_tree(N[2], d2)) for d1 in De for d2 in Dn]
+        outs = [fail]
+        groups = {}
+        for t in triples:
+            groups.setdefault(self.effect(wc, t[1], t[2]), []).append(t)
+        for eff, ts in groups.items():
+            s2 = st.fork() if len(groups) > 1 else st
+            f2 = s2.top
+            s2.S[se] = frozenset(t[0] for t in ts)
+            rec = Record('trans', inst, s2, wc=wc, instance=instance, how='cas', ord=inst.x['ord'], pairs=sorted(set((t[1], t[2]) for t in ts)),
+                         hold=hold, spin=spin, effect=eff, entry=self.entry_name, expected=E, newv=N, mixed=True)
+            nh, ns = self.new_ghost(hold, spin, eff)
+            self.set_lk(s2, wc, instance, nh, ns)
+            s2.ghost.pop(('exact', wc.name, instance), None)
+            rec.new_hold, rec.new_spin = nh, ns
+            self.on_transition(s2, rec)
+            self.record(rec, ('trm', inst.fn.name, inst.id, s2.stack(), hold, spin, eff, self.rec_ctx(s2)))
+            f2.regs[inst.id] = ('agg', (E, 1))
+            f2.idx += 1
+            outs.append(s2)
         return outs
 
     def rec_ctx(self, st):
